@@ -344,10 +344,11 @@ def parse_template(path: str):
                     # optsubst: applied where the text occurs (any number of times, also zero): for statements whose
                     # mere presence is what a contract is about, so that their removal fails the contract, not the extraction
                     d.subst.append((a, b, tl2, {'subst': False, 'substall': True, 'optsubst': 'opt'}[key]))
-                elif key == 'resubst':
-                    # R6 with a regular expression: must match exactly once in the body; the replacement may use \\1..\\9
+                elif key in ('resubst', 'optresubst'):
+                    # R6 with a regular expression: must match exactly once in the body (optresubst: at most once, for a
+                    # statement whose presence is what a contract is about); the replacement may use \\1..\\9
                     a, b = _parse_subst(arg, tl2)
-                    d.resubst.append((a, b, tl2))
+                    d.resubst.append((a, b, tl2, key == 'optresubst'))
                 elif key in ('requires', 'ensures', 'decreases'):
                     section = key
                     if arg.strip():
@@ -549,6 +550,7 @@ def rewrite_body(rf: RepoFile, it: Item, d: FnDirective, rules: dict, info: FnIn
 
     # strip comments inside (doc comments inside fn bodies are harmless; keep ordinary comments)
     # R2 / R3: macros
+    deferred_r2: list[tuple[int, str]] = []
     dk = 0
     i = body_open_idx
     while i < len(ct) - 2:
@@ -583,7 +585,10 @@ def rewrite_body(rf: RepoFile, it: Item, d: FnDirective, rules: dict, info: FnIn
                     # closure body  |x| error!(..)
                     edits.append(Edit(t.start - base, end - base, '{}' + nl, None))
                 else:
-                    raise LostAnchor(f'{rf.rel}:{t.line}: R2 cannot classify position of {name}!')
+                    # unclassifiable position: an error unless the macro turns out to lie inside an R8 cut region
+                    deferred_r2.append((t.start - base, f'{rf.rel}:{t.line}: R2 cannot classify position of {name}!'))
+                    i = close + 1
+                    continue
                 rules['R2'] = rules.get('R2', 0) + 1
                 rules.setdefault('R2_lines', []).append(f'{rf.rel}:{t.line} {name}!')
                 i = close + 1
@@ -746,11 +751,16 @@ def rewrite_body(rf: RepoFile, it: Item, d: FnDirective, rules: dict, info: FnIn
         if len(occ_b) < 1:
             raise LostAnchor(f'{rf.rel}: {d.selector}: cut end anchor {until!r} not found after start')
         cut_ranges.append((occ_a[0], occ_b[0]))
+    for pos, msg in deferred_r2:
+        if not any(lo <= pos < hi for lo, hi in cut_ranges):
+            raise LostAnchor(msg)
     # regular-expression substitutions are resolved to exact-text ones first
     all_subst = list(d.subst)
-    for rx, repl, tl in d.resubst:
+    for rx, repl, tl, optional in d.resubst:
         ms = [m for m in re.finditer(rx, text) if m.start() >= body_lo
               and not any(lo <= m.start() < hi for lo, hi in cut_ranges) and not in_comment(m.start())]
+        if optional and not ms:
+            continue
         if len(ms) != 1:
             raise LostAnchor(f'{rf.rel}: {d.selector}: R6 regex substitution {rx!r} matched {len(ms)} times (need 1)')
         all_subst.append((ms[0].group(0), ms[0].expand(repl), tl, False))
